@@ -17,24 +17,24 @@ def K(test, quick=400, thorough=4000, shards=12, level="exploration", pkg="world
 
 
 CHECKS = {
-    "C01": K("TestC01", quick=600, thorough=20000),
-    "C02": K("TestC02", quick=600, thorough=20000),
-    "C03": K("TestC03(K|D)", quick=500, thorough=10000, qenv={"VERIF_D_FACTOR": 20}, tenv={"VERIF_D_FACTOR": 50}),
-    "C04": K("TestC04(K|D)", quick=500, thorough=10000, qenv={"VERIF_D_FACTOR": 20}, tenv={"VERIF_D_FACTOR": 50}),
-    "C05": K("TestC05", quick=800, thorough=20000),
-    "C06": K("TestC06", quick=800, thorough=20000),
-    "C07": K("TestC07(K|A)", quick=300, thorough=4000, level="fault_enumeration", qenv={"VERIF_A_LIMIT": 120}, tenv={"VERIF_A_LIMIT": 1000}),
-    "C08": K("TestC08(K|A)", quick=600, thorough=12000, qenv={"VERIF_A_LIMIT": 80}, tenv={"VERIF_A_LIMIT": 800}),
-    "C09": K("TestC09(K|D)", quick=400, thorough=10000, qenv={"VERIF_D_FACTOR": 3}, tenv={"VERIF_D_FACTOR": 5}),
-    "C10": K("TestC10(K|A)", quick=400, thorough=4000, pkg="cli", qenv={"VERIF_A_LIMIT": 100}, tenv={"VERIF_A_LIMIT": 1000}),
-    "C11": K("TestC11", quick=600, thorough=20000),
-    "C12": K("TestC12", quick=600, thorough=20000),
-    "C13": K("TestC13", quick=600, thorough=20000),
-    "C14": K("TestC14(A|Hooks)", quick=80, thorough=1200),
-    "C15": K("TestC15", quick=400, thorough=8000),
-    "C16": K("TestC16", quick=400, thorough=6000),
-    "C17": K("TestC17(H|W|D)?", quick=1500, thorough=40000, level="fault_enumeration", qenv={"VERIF_A_LIMIT": 150}, tenv={"VERIF_A_LIMIT": 1500}),
-    "C18": K("TestC18(K|A)", quick=900, thorough=6000, qenv={"VERIF_A_LIMIT": 100}, tenv={"VERIF_A_LIMIT": 800}),
-    "C19": K("TestC19", quick=500, thorough=8000),
+    "C01": K("TestC01", quick=600, thorough=12000),
+    "C02": K("TestC02", quick=600, thorough=12000),
+    "C03": K("TestC03(K|D)", quick=500, thorough=6000, qenv={"VERIF_D_FACTOR": 20}, tenv={"VERIF_D_FACTOR": 50}),
+    "C04": K("TestC04(K|D)", quick=500, thorough=6000, qenv={"VERIF_D_FACTOR": 20}, tenv={"VERIF_D_FACTOR": 50}),
+    "C05": K("TestC05", quick=800, thorough=12000),
+    "C06": K("TestC06", quick=800, thorough=12000),
+    "C07": K("TestC07(K|A)", quick=300, thorough=3000, level="fault_enumeration", qenv={"VERIF_A_LIMIT": 120}, tenv={"VERIF_A_LIMIT": 1000}),
+    "C08": K("TestC08(K|A)", quick=600, thorough=7000, qenv={"VERIF_A_LIMIT": 80}, tenv={"VERIF_A_LIMIT": 800}),
+    "C09": K("TestC09(K|D)", quick=400, thorough=6000, qenv={"VERIF_D_FACTOR": 3}, tenv={"VERIF_D_FACTOR": 5}),
+    "C10": K("TestC10(K|A)", quick=400, thorough=3000, pkg="cli", qenv={"VERIF_A_LIMIT": 100}, tenv={"VERIF_A_LIMIT": 1000}),
+    "C11": K("TestC11", quick=600, thorough=12000),
+    "C12": K("TestC12", quick=600, thorough=12000),
+    "C13": K("TestC13", quick=600, thorough=12000),
+    "C14": K("TestC14(A|Hooks)", quick=80, thorough=800),
+    "C15": K("TestC15", quick=400, thorough=5000),
+    "C16": K("TestC16", quick=400, thorough=4000),
+    "C17": K("TestC17(H|W|D)?", quick=1500, thorough=15000, level="fault_enumeration", qenv={"VERIF_A_LIMIT": 150}, tenv={"VERIF_A_LIMIT": 1500}),
+    "C18": K("TestC18(K|A)", quick=900, thorough=4000, qenv={"VERIF_A_LIMIT": 100}, tenv={"VERIF_A_LIMIT": 800}),
+    "C19": K("TestC19", quick=500, thorough=5000),
     "C20": K("TestC20(Binary|Chain)?", quick=150, thorough=1200, pkg="cli"),
 }
